@@ -9,7 +9,7 @@ from typing import Dict, List, Optional, Set, Tuple
 from ..core import astutil as A
 from ..core.index import AnalysisError, FuncInfo
 from ..selftest import M
-from .common import may_conds, T, attr_stores, calls_named, conds, every_origin, facts, need, subscript_stores, where
+from .common import ext_name, branch_values, atoms_of, may_conds, T, attr_stores, calls_named, conds, every_origin, facts, need, subscript_stores, where
 
 PP = "ufo2ft.postProcessor.PostProcessor"
 
@@ -121,8 +121,26 @@ def r112(prog, chk):
         ok = _is_map_get(lc.elt, rmap, v) and T(lc.generators[0].iter).endswith(".charset") and not lc.generators[0].ifs
     chk.ob("R11.2", f"{f.short}|CFF charset mapped with the same map, order kept", ok, where(f, ch[0][0]) if ch else where(f), detail=T(ch[0][2], 80) if ch else "",
            message=f"{f.short}: the CFF charset is not the old charset mapped element by element")
-    tag = [s for s in A.stmts_of(f.node) if isinstance(s, ast.Assign) and isinstance(s.value, ast.IfExp) and "'CFF '" in T(s.value) and "'CFF2'" in T(s.value)]
-    chk.ob("R11.2", f"{f.short}|both CFF flavours are carriers", len(tag) == 1, where(f), detail=T(tag[0].value, 80) if tag else "", message=f"{f.short}: the choice of the CFF carrier table (CFF, else CFF2, else none) was changed")
+    # the carrier tag: 'CFF ' when the font has it, else 'CFF2' when it has that, else None (whether written as a conditional
+    # expression or as if / elif / else assignments)
+    okt, shown = False, ""
+    for nm in [n for n in A.body_nodes(f.node) if isinstance(n, ast.Name) and isinstance(n.ctx, ast.Load)]:
+        bv = branch_values(prog, f, nm)
+        vals = [v.value if isinstance(v, ast.Constant) else "?" for v, fs in bv]
+        if sorted(map(str, vals)) != sorted(map(str, ["CFF ", "CFF2", None])):
+            continue
+        shown = "; ".join(f"{T(v)} if {sorted(fs)}" for v, fs in bv)[:120]
+        good = True
+        for v, fs in bv:
+            has1 = any(o == "in" and l == "'CFF '" for o, l, r in fs)
+            no1 = any(o == "notin" and l == "'CFF '" for o, l, r in fs)
+            has2 = any(o == "in" and l == "'CFF2'" for o, l, r in fs)
+            no2 = any(o == "notin" and l == "'CFF2'" for o, l, r in fs)
+            good = good and {"CFF ": has1, "CFF2": no1 and has2, None: no1 and no2}[v.value]
+        if good:
+            okt = True
+            break
+    chk.ob("R11.2", f"{f.short}|both CFF flavours are carriers", okt, where(f), detail=shown, message=f"{f.short}: the choice of the CFF carrier table (CFF, else CFF2, else none) was changed")
     # CFF is always re-keyed; a CFF2 table only when it is already decompiled (a table decompiled later reads the NEW glyph
     # order, so re-keying it again applies the map twice: colliding names then exchange outlines)
     if cs:
@@ -169,7 +187,7 @@ def r112(prog, chk):
         for s, t, v in attr_stores(fn, "extraNames"):
             if isinstance(v, ast.ListComp):
                 e = v.generators[0]
-                exprs.append((fn, T(v.elt) == A.target_names(e.target)[0] and len(e.ifs) == 1 and isinstance(e.ifs[0], ast.Compare) and isinstance(e.ifs[0].ops[0], ast.NotIn) and T(e.ifs[0].comparators[0]) == "standardGlyphOrder"))
+                exprs.append((fn, T(v.elt) == A.target_names(e.target)[0] and len(e.ifs) == 1 and isinstance(e.ifs[0], ast.Compare) and isinstance(e.ifs[0].ops[0], ast.NotIn) and ext_name(prog, fn, e.ifs[0].comparators[0]) == "fontTools.ttLib.standardGlyphOrder.standardGlyphOrder"))
     ok = len(exprs) >= 2 and all(x[1] for x in exprs)
     chk.ob("R11.2", "extraNames = glyph order without the standard Macintosh names, at every place that computes it", ok, where(sp), detail=f"{len(exprs)} computations",
            message="the places that compute post.extraNames disagree")
@@ -304,11 +322,24 @@ def r115(prog, chk):
     rets = A.returns_of(f.node)
     # lib names win
     lib = [r for r in rets if any(o == "truthy" and l == "self._postscriptNames" for o, l, r_ in facts(prog, f, r))]
-    ok = len(lib) == 1 and isinstance(lib[0].value, ast.IfExp) and T(lib[0].value.orelse) == f"{g}.name"
+    # the value returned under "the lib has names": the looked-up name when it is non-empty, else the glyph's own name
+    cases = []
+    for r in lib:
+        rf = set(facts(prog, f, r))
+        if isinstance(r.value, ast.IfExp):
+            arms = [(r.value.body, rf | set(atoms_of(r.value.test, True))), (r.value.orelse, rf | set(atoms_of(r.value.test, False)))]
+        else:
+            arms = [(r.value, rf)]
+        for v, fs in arms:
+            pn = v.id if isinstance(v, ast.Name) else None
+            for v2, fs2 in branch_values(prog, f, v):
+                cases.append((v2, fs | fs2, pn))
+    looked = [(v, fs, pn) for v, fs, pn in cases if T(v) == f"self._postscriptNames.get({g}.name)"]
+    own = [(v, fs, pn) for v, fs, pn in cases if T(v) == f"{g}.name"]
+    ok = len(looked) == 1 and len(own) == 1 and len(cases) == 2 and looked[0][2] is not None
     if ok:
-        pn = lib[0].value.body
-        ds = prog.reaching(f, pn.id, pn) if isinstance(pn, ast.Name) else []
-        ok = len(ds) == 1 and T(ds[0].value) == f"self._postscriptNames.get({g}.name)" and T(lib[0].value.test) == pn.id
+        pn = looked[0][2]
+        ok = any(o == "truthy" and l == pn for o, l, r_ in looked[0][1]) and any(o == "falsy" and l == pn for o, l, r_ in own[0][1])
     chk.ob("R11.5", f"{f.short}|lib-supplied name wins when non-empty, else the glyph keeps its name", ok, where(f, lib[0]) if lib else where(f), detail=T(lib[0].value) if lib else "",
            message=f"{f.short}: with a public.postscriptNames map present, a glyph is not named by its (non-empty) entry / its own name")
     fm = [r for r in rets if isinstance(r.value, ast.Call) and isinstance(r.value.func, ast.Attribute) and r.value.func.attr == "format" and isinstance(r.value.func.value, ast.Constant) and "04X" in r.value.func.value.value]
